@@ -94,7 +94,10 @@ Preds == { [p |-> "type", t |-> "Person", f |-> <<>>], [p |-> "type", t |-> "Lev
            [p |-> "field", t |-> "Node", f |-> <<"node", "id">>],
            \* "fields": every field of the type whose FIRST word is f[1] - two ADJACENT fields of Query (find_items, find_any below)
            [p |-> "fields", t |-> "Query", f |-> <<"find">>],
-           [p |-> "input", t |-> "Filter", f |-> <<"min", "size">>], [p |-> "directive", t |-> "my_dir", f |-> <<>>] }
+           [p |-> "input", t |-> "Filter", f |-> <<"min", "size">>], [p |-> "directive", t |-> "my_dir", f |-> <<>>],
+           \* an input field that a DEFAULT VALUE mentions (Query.find_items(page_opts: Page = {page_size: 5, sort_order: "asc"})): the
+           \* stored default is untouched, what printing and introspection show of it follows the narrowed type
+           [p |-> "input", t |-> "Page", f |-> <<"sort", "order">>] }
 HiddenType(p, n) == p.p = "type" /\ p.t = n
 \* closure: an element whose type is hidden disappears too
 FieldVisible(p, tn, fl) == ~(p.p = "field" /\ p.t = tn /\ p.f = fl.w) /\ ~(p.p = "fields" /\ p.t = tn /\ fl.w[1] = p.f[1]) /\ ~HiddenType(p, Inner(fl.type))
